@@ -359,11 +359,13 @@ class SolverRun:
         for ent in pending:
             if id(ent) in joined or "exc" in ent:
                 continue
-            cand = byholder.get(id(ent.get("holder_in")))
-            if cand is not None and cand.GetIndex() >= 0 and id(cand) not in self.matched \
-                    and tuple(float(t) for t in cand.GetY().floatVariables) == tuple(ent["y"]):
-                joined[id(ent)] = cand
-                self.matched.add(id(cand))
+            for hk in ("holder_in", "holder_out"):      # the holder the solver passed, or the one the problem returned (and the solver stored)
+                cand = byholder.get(id(ent.get(hk))) if ent.get(hk) is not None else None
+                if cand is not None and cand.GetIndex() >= 0 and id(cand) not in self.matched \
+                        and tuple(float(t) for t in cand.GetY().floatVariables) == tuple(ent["y"]):
+                    joined[id(ent)] = cand
+                    self.matched.add(id(cand))
+                    break
         for ent in pending:
             if id(ent) in joined or "exc" in ent:
                 continue
